@@ -235,6 +235,7 @@ namespace
     }
 
     std::string funcId(const FunctionDecl* FD);
+    std::string calleeName(const FunctionDecl* FD);
 
     const FunctionDecl* enclosingFunction(const DeclContext* DC)
     {
@@ -416,7 +417,7 @@ namespace
             else if (auto* EC = dyn_cast<EnumConstantDecl>(D->getDecl()))
                 refs.insert("e:" + qname(EC));
             else if (auto* FD = dyn_cast<FunctionDecl>(D->getDecl()))
-                refs.insert("c:" + qname(FD));
+                refs.insert("c:" + calleeName(FD));
             return true;
         }
         bool VisitMemberExpr(MemberExpr* M)
@@ -424,7 +425,7 @@ namespace
             if (auto* FD = dyn_cast<FieldDecl>(M->getMemberDecl()))
                 refs.insert("f:" + qname(FD));
             else if (auto* MD = dyn_cast<CXXMethodDecl>(M->getMemberDecl()))
-                refs.insert("c:" + qname(MD));
+                refs.insert("c:" + calleeName(MD));
             return true;
         }
         bool VisitCXXThisExpr(CXXThisExpr*)
